@@ -245,6 +245,23 @@ class CallModel:
         if name == 'Py_BuildValue':
             self.exc_args = (args[0], [getattr(a, 'name', a) for a in args[1:]])
             return Sym('excargs')
+        if name in ('PyUnicode_FromString', 'PyUnicode_InternFromString') and \
+                isinstance(args[0], str):
+            return Sym('str:' + args[0])
+        if name == 'PyTuple_Pack' and isinstance(args[0], int) and \
+                len(args) == args[0] + 1:
+            # the same tuple Py_BuildValue builds from "s"/"O" codes
+            fmt, vals = '', []
+            for a in args[1:]:
+                nm = getattr(a, 'name', a)
+                if isinstance(nm, str) and nm.startswith('str:'):
+                    fmt += 's'
+                    vals.append(nm[4:])
+                else:
+                    fmt += 'O'
+                    vals.append(nm)
+            self.exc_args = (fmt, vals)
+            return Sym('excargs')
         if name == 'PyErr_SetObject':
             self.err = getattr(args[0], 'name', '')[6:]
             return None
@@ -542,7 +559,21 @@ def run(rep):
               'the interface methods (or the flag is inherited)' if not pw else
               {'problems': sorted(set(pw))[:3]}, construct='writer', node=new)
     f = u.func('IB__call__')
-    probes = [c for n in ccfg(f).nodes for c in node_calls(n)
+    # the probe may sit in IB__call__ itself or in a helper it calls: helpers
+    # are followed unless they are modelled adaptation steps of their own
+    seen_f, todo_f, fcalls = set(), ['IB__call__'], []
+    while todo_f:
+        fn = todo_f.pop()
+        if fn in seen_f or fn not in u.funcs:
+            continue
+        seen_f.add(fn)
+        for n in ccfg(u.funcs[fn]).nodes:
+            for c in node_calls(n):
+                fcalls.append(c)
+                if isinstance(c.a[0], str) and c.a[0] in u.funcs and \
+                        c.a[0] != 'IB__adapt__':
+                    todo_f.append(c.a[0])
+    probes = [c for c in fcalls
               if c.a[0] in ('PyDict_GetItemString', 'PyObject_HasAttrString',
                             'PyObject_GetAttrString')
               and c.a[1] and c.a[1][-1].k == 'str']
